@@ -143,23 +143,26 @@ def main(argv):
     if kspec:
         tk = time.time()
         crates = sorted({k["crate"] for k in kspec})
+        feats = tuple(getattr(mod, "KANI_FEATURES", {}).get(tier, ()))
         for c in crates:
-            ok, dt, tail = K.build(c, log_dir)
+            ok, dt, tail = K.build(c, log_dir, feats)
             if not ok:
                 problems.append({"what": f"kani-build:{c}", "why": tail[-1500:]})
-        jobs = int(os.environ.get("VERIF_JOBS", "8"))
+        jobs = int(os.environ.get("VERIF_JOBS", str(getattr(mod, "KANI_JOBS", 8))))
         from concurrent.futures import ThreadPoolExecutor
         with ThreadPoolExecutor(max_workers=jobs) as ex:
             futs = {}
             for k in kspec:
                 to = k.get("timeout_quick", 300) if tier == "quick" else k.get("timeout_thorough", 1800)
-                futs[k["harness"]] = ex.submit(K.run_harness, k["crate"], k["harness"], to, log_dir, k.get("mem_gb", 12), k.get("extra", ()))
+                futs[k["harness"]] = ex.submit(K.run_harness, k["crate"], k["harness"], to, log_dir, k.get("mem_gb", 12), k.get("extra", ()),
+                                               False, not hasattr(mod, "kani_replay"), feats)
             for k in kspec:
                 r = futs[k["harness"]].result()
                 r["id"] = k.get("id", k["harness"])
                 r["bound"] = k.get("bound", "")
                 r["functions"] = k.get("functions", [])
                 r["expect"] = k.get("expect", "success")
+                r["spec"] = k
                 kres[k["harness"]] = r
         k_time = time.time() - tk
         for h, r in kres.items():
